@@ -1,6 +1,7 @@
 ID='C20'
 FILE='internal/crosscompile/fetch.go'
 MUTANTS=[
+ ('tgz-honours-symlinks', '\t\tcase tar.TypeReg:\n\t\t\tif err := os.MkdirAll(filepath.Dir(target), 0755); err != nil {', '\t\tcase tar.TypeSymlink:\n\t\t\tos.MkdirAll(filepath.Dir(target), 0755)\n\t\t\tif err := os.Symlink(header.Linkname, target); err != nil {\n\t\t\t\treturn err\n\t\t\t}\n\t\tcase tar.TypeReg:\n\t\t\tif err := os.MkdirAll(filepath.Dir(target), 0755); err != nil {'),
  ('revert-zip-parent', '\t\tif err := os.MkdirAll(filepath.Dir(path), 0755); err != nil {\n\t\t\treturn err\n\t\t}\n', ''),
  ('revert-zip-slip', 'if path != filepath.Clean(dest) && !strings.HasPrefix(path, filepath.Clean(dest)+string(os.PathSeparator)) {\n\t\t\treturn fmt.Errorf("%s: illegal file path", path)\n\t\t}', ''),
  ('tgz-guard-uncleaned', 'target := filepath.Join(dest, header.Name)', 'target := dest + "/" + header.Name'),
